@@ -85,8 +85,8 @@ theorem mem_schemaDefs {T : TsDoc} {d : SchemaDef} :
 
 theorem checkSchema_nil_item {T : TsDoc} (h : checkSchema T = []) {it : TsItem} (hit : it ∈ T) :
     checkItem T ⟨T⟩ it = [] := by
-  simp only [checkSchema, List.flatMap_eq_nil_iff] at h
-  exact h it hit
+  simp only [checkSchema, checkSchemaItems, List.append_eq_nil_iff, List.flatMap_eq_nil_iff] at h
+  exact h.2 it hit
 
 theorem checkSchema_nil_typeDef {T : TsDoc} (h : checkSchema T = []) {t : TypeDef}
     (ht : t ∈ ValidTs.typeDefs T) : checkTypeDef T ⟨T⟩ t = [] :=
